@@ -154,6 +154,49 @@ def suite_policy_reapplied(tier, seed):
     return s
 
 
+def suite_unloadable_validator(tier, seed):
+    s = Suite("oracle:unloadable-validator-fails-closed")
+    s.rule = ("a storage whose `validators` list names, besides is_signed, a validator that cannot be loaded (module missing / attribute "
+              "missing / not callable; first, middle or last in the list) is built and set up the way the relay does it; a genuine event is "
+              "submitted: either the storage refuses to start, or it refuses the event - it must not run with a shortened pipeline and accept "
+              "what the missing validator was configured to judge; SQL and LMDB; non-trivial always")
+    bad = ["nostr_relay.no_such_module_verif.check", "nostr_relay.validators.no_such_validator_verif", "harness_no_such_package.validators.check"]
+
+    async def one(backend, names):
+        env.load_config(authentication={"enabled": False})
+        env.patch_clock()
+        sc = env.Scratch()
+        st = None
+        try:
+            try:
+                st = await (env.sql_storage(sc, validators=names) if backend == "sql" else env.kv_storage(sc, validators=names))
+            except Exception as e:      # noqa
+                return "refused-to-start:" + type(e).__name__
+            try:
+                _, ok = await st.add_event(env.mk_event(1, 1, env.NOW - 3, [], "policy?"))
+            except Exception as e:      # noqa
+                return "refused-event:" + type(e).__name__
+            await env.quiesce(st)
+            stored = await st.get_event(env.mk_event(1, 1, env.NOW - 3, [], "policy?")["id"]) is not None
+            return "accepted" if (ok or stored) else "refused-event"
+        finally:
+            if st is not None:
+                await env.close(st)
+            sc.close()
+    for backend in ("sql", "kv"):
+        for b in bad:
+            for pos in (0, 1, 2):
+                names = ["nostr_relay.validators.is_signed", "nostr_relay.validators.is_recent"]
+                names.insert(pos, b)
+                out = env.run(one(backend, names))
+                case = {"backend": backend, "validators": names}
+                s.case(case, nontrivial=True)
+                s.count(out.split(":")[0])
+                if out == "accepted":
+                    s.violate("configured-validator-not-applied", case, "the storage started without the validator it could not load and accepted an event", expected="refusal (of the start or of the event)", observed=out)
+    return s
+
+
 def suite_policy_relaxed(tier, seed):
     s = Suite("oracle:refusal-is-not-remembered")
     s.rule = ("the mirror image of policy-reapplied: an event is REFUSED by the pipeline (author on the blacklist / on the dynamic deny list / too old "
@@ -3433,6 +3476,7 @@ def registry():
         "oracle:authorization-corner-cases": suite_authz_corners,
         "oracle:simultaneous-reqs-all-answered-in-full": suite_simultaneous_reqs,
         "oracle:abandoned-big-answers-do-not-starve-later-reqs": suite_abandoned_big_queries,
+        "oracle:unloadable-validator-fails-closed": suite_unloadable_validator,
         "oracle:same-filter-object-same-answer": suite_filter_object_reuse,
         "oracle:registrations-dropped-when-the-peer-vanishes": suite_peer_gone,
         "oracle:limit-cap-plain-subscribe": suite_cap_plain_subscribe,
